@@ -15,7 +15,7 @@ ASSUMPTIONS = [
 ]
 
 ORACLE = {"nopanic", "legalcuts", "parts", "count", "fullbounds", "cover", "nparts", "boundsgiven", "ids", "partition"}
-CORR = {"mscan", "mn", "mparts", "mbounds", "mranges"}
+CORR = {"mscan", "mn", "mparts", "mbounds", "mranges", "malist"}
 
 
 def key(case):
@@ -39,8 +39,8 @@ def run(ctx):
         rs.append(r)
     r = codec.merge(rs)
     # distribution by implementor / operation
-    r["rule"] = ("38 implementor/wrapper types (VecGraph, BTreeGraph, CsrGraph, CsrSortedGraph, BvGraph, BvGraphSeq, "
-                 "ArcListGraph, Left/Right of LabeledVecGraph, UnitLabelGraph, NoSelfLoops, Permuted, Union incl. operands of "
+    r["rule"] = ("42 implementor/wrapper types (VecGraph, BTreeGraph, CsrGraph, CsrSortedGraph, CompressedCsrGraph, BvGraph, BvGraphSeq, "
+                 "ArcListGraph, Left/Right of LabeledVecGraph and LabeledBTreeGraph, UnitLabelGraph, UnitLabelParLenders, NoSelfLoops, Permuted, Union incl. operands of "
                  "different sizes, depth-2 nestings, ParGraph::{new,with_cutpoints,with_dcf}, ParSortedGraph) x "
                  "{split_iter_at on legal cut sequences (repeats, first cut > 0, last cut < n, all equal, more parts than "
                  "nodes) and on a malformed stream, split_iter(k) k=1..64, into_par_lenders under pools of 1..64 threads}; "
